@@ -56,3 +56,32 @@ Print Assumptions C09_corrected_range.
 (* non-vacuity: s = 1/2 is in every domain above *)
 Example C09_example : 0 < 1 / 2 <= 1 /\ correct_cosine (alt (1 / 2)) = 1 / 2.
 Proof. split; [lra|]. rewrite cosine_correction_inverts; lra. Qed.
+
+(* ------------------------------------------------------------------------------
+   The surrogate kernels themselves (integer model of the accumulator loops,
+   model/Lattice.v): alternative_cosine takes its logarithm on the SAME pair
+   (result, norm_x * norm_y) the documented cosine uses, only where 0 < result and
+   result^2 <= norm_x * norm_y - so the surrogate is log2 of a number >= 1, i.e. a
+   value d >= 0 in the domain of the inversion theorems above with s = result / sqrt q -
+   and hands out the "infinitely far" sentinel only where the documented distance is
+   >= 1 (its ratio is <= 0) or exactly 1.0.  Likewise alternative_dot against dot. *)
+From Coq Require Import ZArith List.
+From PV Require Import Lattice LatticeProofs.
+Theorem C09_alternative_cosine_core : forall x y,
+  match alternative_cosine x y with
+  | ARatio r q => cosine x y = ARatio r q /\ (0 < r /\ 0 < q /\ r * r <= q)%Z
+  | AMax => cosine x y = AOne \/ exists r q, cosine x y = ARatio r q /\ (r <= 0)%Z
+  | AZero => cosine x y = AZero
+  | AOne => False
+  end.
+Proof. exact alternative_cosine_core. Qed.
+Print Assumptions C09_alternative_cosine_core.
+
+Theorem C09_alternative_dot_core : forall x y,
+  match alternative_dot x y with
+  | ARatio r q => dot x y = ARatio r q /\ (0 < r)%Z
+  | AMax => dot x y = AOne
+  | _ => False
+  end.
+Proof. exact alternative_dot_core. Qed.
+Print Assumptions C09_alternative_dot_core.
